@@ -881,8 +881,9 @@ class Element(object):
         if name in self.cls_attrs:
             if name == 'children':
                 children = []
-                if not isinstance(value, ElementList):
-                    children = value
+                if not isinstance(value, ElementList) or value.element is not self:
+                    # (the child list of another element is a sequence of children like any other)
+                    children = list(value)
                     value = ElementList(self)
                 old_children = self.__dict__.get('children')
                 super(Element, self).__setattr__(name, value)
